@@ -233,8 +233,11 @@ def enum_advisories(seed):
 <package name="dev-util/diffball" auto="yes" arch="{arch}">{ranges}</package>
 </affected><background><p>b</p></background><description><p>d</p></description><impact type="normal"><p>i</p></impact>
 <workaround><p>w</p></workaround><resolution><p>r</p></resolution><references/></glsa>"""
-    vers = ["0.9", "1.0", "1.0-r1", "1.0-r2", "1.01", "1.1", "2.0"]
+    vers = ["0.9", "1.0", "1.0-r1", "1.0-r2", "1.01", "1.1", "2.0", "1.0_p", "1.0_p0", "1.0_p0-r1", "1.0_p1", "1.0_rc1", "1.0_p1_p2"]
     pkgs = [FakePkg(f"dev-util/diffball-{v}", slot=s, keywords=k) for v in vers for s in ("0", "1") for k in (("x86",), ("amd64",), ("ppc",))]
+
+    from contracts.c01 import pms_cmp
+    ver_cmp = lambda v1, r1, v2, r2: pms_cmp(v1, int(str(r1 or 0) or 0), v2, int(str(r2 or 0) or 0))    # the reference compares by the PMS algorithm written out in C01, not with the code under test
 
     def in_range(op, base, slot, glob, p):
         b = VersionedCPV(f"cat/pkg-{base}")
@@ -255,6 +258,7 @@ def enum_advisories(seed):
         for base in ("1.0", "1.0-r1"):
             for slot in ("", "1"):
                 specs.append((op, base, slot, False))
+    specs += [(op, base, "", False) for op in ("lt", "le", "ge", "gt", "eq") for base in ("1.0_p0", "1.0_p", "1.0_p1_p1")]   # boundaries that differ from an installed version only by a patch-level suffix
     specs += [("eq", "1.0", "", True), ("eq", "1", "1", True), ("lt", "1.0-r2", "*", False), ("rge", "1.0", "*", False), ("eq", "1.0", "*", True)]
     cases, fails = 0, []
     with tempfile.TemporaryDirectory(dir="/var/tmp") as d:
@@ -295,7 +299,9 @@ def enum_advisories(seed):
 
 
 def _in_range(op, base, slot, glob, p):
-    from pkgcore.ebuild.cpv import VersionedCPV, ver_cmp
+    from pkgcore.ebuild.cpv import VersionedCPV
+    from contracts.c01 import pms_cmp
+    ver_cmp = lambda v1, r1, v2, r2: pms_cmp(v1, int(str(r1 or 0) or 0), v2, int(str(r2 or 0) or 0))
     b = VersionedCPV(f"cat/pkg-{base}")
     c = ver_cmp(p.version, p.revision, b.version, b.revision)
     if glob:
